@@ -54,7 +54,7 @@ def split_blocks(v, dims):
     return vl, vq, vs
 
 
-def wrapper_args(entry, pr, rng, sparse=False, junk=False):
+def wrapper_args(entry, pr, rng, sparse=False, junk=False, sparse_h=False):
     """arguments of lp / socp / sdp for a Prob whose dims fit the entry point"""
     d = pr.dims
     mag = rng.choice([50.0, 50.0, 0.0]) if junk else 0.0
@@ -69,12 +69,12 @@ def wrapper_args(entry, pr, rng, sparse=False, junk=False):
     if entry == "socp":
         a["Gq"], a["hq"] = [], []
         for m in d.q:
-            a["Gq"].append(mk(G[ind:ind + m], sparse)); a["hq"].append(mk(h[ind:ind + m])); ind += m
+            a["Gq"].append(mk(G[ind:ind + m], sparse)); a["hq"].append(mk(h[ind:ind + m], sparse_h)); ind += m
     else:
         a["Gs"], a["hs"] = [], []
         for m in d.s:
             a["Gs"].append(mk(G[ind:ind + m * m], sparse))
-            a["hs"].append(mk(h[ind:ind + m * m].reshape((m, m), order="F"))); ind += m * m
+            a["hs"].append(mk(h[ind:ind + m * m].reshape((m, m), order="F"), sparse_h)); ind += m * m
     return a
 
 
